@@ -17,6 +17,8 @@
 (*   overwrite fitting MutFam overwrites the fixed MutName with an estimate              *)
 (*   stale     an inner dependence function is evaluated at the previous given           *)
 (*   vecfirst  a vectorised call uses the first element's given for every element        *)
+(*   inttrunc  an integer-typed explicit value of (MutFam, MutName) is mapped in integer    *)
+(*             arithmetic (e.g. reciprocal of an int) and so differs from the instance's      *)
 (*   bothornone  MutFam (two parameters) rejects a call that overrides exactly one of them  *)
 (*   constscalar  a vector given with only constant parameter values yields ONE result      *)
 (*   noneassigned  the constructor of MutFam stores an explicit f_<name> = None as the value  *)
@@ -52,8 +54,11 @@ Init ==
                /\ \E n \in Names(f) :        \* f_n = None given explicitly: nothing fixed
                     c = Case("fit", f, {}, "cdf", "ndarray", "kw", {}, "plain", "ss", {}, "mle", "own", "none", n)
             \/ /\ Scen = "override"
-               /\ \E E \in SUBSET Names(f), m \in Methods, ak \in ArgKinds, p \in PassKinds :
-                    c = Case("override", f, E, m, ak, p, {}, "plain", "ss", {}, "mle", "own", "regular", "none")
+               /\ \/ \E E \in SUBSET Names(f), m \in Methods, ak \in ArgKinds, p \in PassKinds :
+                       c = Case("override", f, E, m, ak, p, {}, "plain", "ss", {}, "mle", "own", "regular", "none")
+                  \/ \E ic \in IntOverrideCasesOf(f) :      \* integer-typed explicit values (special = kind)
+                       c = Case("override", f, Range(ic[2]), ic[3], "ndarray", ic[5], {}, "plain", "ss", {},
+                                "mle", "own", ic[4], "none")
             \/ /\ Scen = "cond"
                /\ \E D \in Partitions(f), ch \in Chains, sh \in Shapes, m \in Methods :
                     c = Case("cond", f, {}, m, "ndarray", "kw", D, ch, sh, Names(f) \ D, "mle", "own", "regular", "none")
@@ -83,8 +88,10 @@ CallExplicit ==
          /\ outcome' = oc
          /\ used' = IF oc = "ok"
                     THEN << [n \in Names(c.fam) |->
-                               IF n \in c.E /\ ~(MutKind = "drop" /\ Mut(c.fam, n))
-                               THEN Explicit(n) ELSE par[n]] >>
+                               IF n \in c.E /\ MutKind = "inttrunc" /\ Mut(c.fam, n) /\ c.special \in IntKinds
+                               THEN <<"truncated", n>>
+                               ELSE IF n \in c.E /\ ~(MutKind = "drop" /\ Mut(c.fam, n))
+                                    THEN Explicit(n) ELSE par[n]] >>
                     ELSE <<>>
     /\ pc' = "done"
     /\ UNCHANGED <<c, par, round, k>>
